@@ -55,7 +55,7 @@ func init() {
 	models["net/http.ResponseWriter.Header"] = func(x *Exec, fr *Frame, st *State, pc *preparedCall, k func(*State, []Value)) {
 		// the header map of a writer is a function of the writer
 		id := App("rwheader", SInt, x.asTerm(pc.recv))
-		st.assumeRaw(Gt(id, IntLit(0)))
+		st.assumeRaw(Gt(id, IntLit(1<<50)))
 		mt := pc.fn.Type().(*types.Signature).Results().At(0).Type().Underlying().(*types.Map)
 		k(st, []Value{MapV{ID: id, Type: mt}})
 	}
@@ -174,7 +174,7 @@ func init() {
 
 func (x *Exec) respHeaderMap(st *State, recv Value) MapV {
 	id := App("resphdr", SInt, x.asTermAny(recv))
-	st.assumeRaw(Gt(id, IntLit(0)))
+	st.assumeRaw(Gt(id, IntLit(1<<50)))
 	hp := x.L.pkgOf("net/http")
 	mt := hp.Types.Scope().Lookup("Header").Type().Underlying().(*types.Map)
 	return MapV{ID: id, Type: mt}
@@ -271,6 +271,29 @@ func (x *Exec) mapCopyAll(st *State, dst, src MapV) {
 // freshErr is an arbitrary error value (nil or some error that is none of the sentinels).
 func (x *Exec) freshErr(st *State, hint string) Value {
 	e := Var(x.fresh(hint), SInt)
-	st.assumeRaw(Or(Eq(e, IntLit(0)), Gt(e, IntLit(100000))))
+	// errors coming out of modelled I/O live above 2^40 and wrap nothing (global axiom)
+	st.assumeRaw(Or(Eq(e, IntLit(0)), Gt(e, IntLit(1<<40))))
+	x.freshErrs = append(x.freshErrs, e)
+	x.ioErrAxiom()
 	return OpaqueV{T: e, Type: types.Universe.Lookup("error").Type()}
+}
+
+func init() {
+	// Closing a reader / file has no effect on modelled state.
+	noEffect := func(x *Exec, fr *Frame, st *State, pc *preparedCall, k func(*State, []Value)) {
+		k(st, []Value{x.freshErr(st, "closeerr")})
+	}
+	models["io.Closer.Close"] = noEffect
+	models["io.ReadCloser.Close"] = noEffect
+	models["reservoir/cache.EntryData.Close"] = noEffect
+	models["io.ReadSeekCloser.Close"] = noEffect
+}
+
+func (x *Exec) ioErrAxiom() {
+	if x.ioErrAxiomDone {
+		return
+	}
+	x.ioErrAxiomDone = true
+	e, t := Var("qe_io", SInt), Var("qt_io", SInt)
+	x.GlobalFacts = append(x.GlobalFacts, Forall([]*Term{e, t}, Implies(Gt(e, IntLit(1<<40)), Not(App("wraps", SBool, e, t)))))
 }
